@@ -6,12 +6,24 @@ consistency checks of the two constructors; they are translated from the source 
 
 Gen.gcxsCtorChecks : `GCXS.__init__`, the statements from `if self.data.ndim != 1` up to (excluding) `self.shape = shape`:
                      data 1-d; every extent a non-negative integer; len(data) == len(indices) for ndim >= 1; for ndim >= 2
-                     len(indptr) == (product of the compressed extents) + 1, indptr[0] == 0, indptr[-1] == len(indices).
-                     Lengths and the two end entries of `indptr` enter as integer parameters (`bind`); the product
-                     `reduce(operator.mul, (int(shape[a]) for a in compressed_axes), 1)` is the parameter `rows` and the
-                     `all(...)` over the extents is the Boolean parameter `shapeOk` (`consts`: a change of either expression
-                     makes the translator refuse).  Iterating `compressed_axes = None` (TypeError) is not an integer
-                     matter: the model (Model/Npz.lean: `gcxsChecks`) handles it around the generated function.
+                     len(indptr) == (product of the compressed extents) + 1, indptr[0] == 0, indptr[-1] == len(indices),
+                     indptr non-decreasing; and, when there are stored indices and ndim >= 1: indices 1-d and every index in
+                     [0, n_uncompressed) with n_uncompressed = shape[0] (ndim == 1) or the product of the uncompressed
+                     extents (ndim >= 2).
+                     Integer parameters (`bind`): the lengths, ndim, shape[0], indptr[0], indptr[-1], np.ndim(indices),
+                     np.min(indices), np.max(indices).  Parameters standing for whole expressions (`consts`; a change of
+                     the expression makes the translator refuse), with the meaning the model gives them (Model/Npz.lean):
+                       rows         = reduce(operator.mul, (int(shape[a]) for a in compressed_axes), 1)      Npz.rowsOf
+                       cols         = reduce(operator.mul, (int(sh) for a, sh in enumerate(shape)
+                                                            if a not in compressed_axes), 1)                 Npz.colsOf
+                       ptrDecreases = np.any(self.indptr[1:] < self.indptr[:-1])   some entry is smaller than
+                                      its predecessor                                                        Npz.ptrDecreases
+                       shapeOk      = all(isinstance(sh, Integral) and int(sh) >= 0 for sh in shape)         s.all gcxsShapeEltOk
+                       imin / imax  = np.min / np.max of a non-empty integer array                           Npz.listMin / listMax
+                     Iterating `compressed_axes = None` (TypeError) is not an integer matter: the model (`gcxsChecks`)
+                     runs `Gen.gcxsCtorChecksHead` and then raises it.
+Gen.gcxsCtorChecksHead : the same statements up to (excluding) `n_uncompressed = …`: what runs before the products over the
+                     compressed axes are formed.
 Gen.gcxsShapeEltOk : the element of that `all(...)`: `isinstance(sh, Integral) and int(sh) >= 0` (members of an integer
                      array are Integral).
 Gen.cooCtorChecks  : `COO.__init__`, from `if self.coords.ndim != 2` up to the `WARN_ON_TOO_DENSE` import: coords 2-d,
@@ -24,6 +36,8 @@ INT, BOOL = "Int", "Bool"
 
 ALL_SHAPE = "all((isinstance(sh, Integral) and int(sh) >= 0 for sh in shape))"
 ROWS = "reduce(operator.mul, (int(shape[a]) for a in compressed_axes), 1)"
+COLS = "reduce(operator.mul, (int(sh) for a, sh in enumerate(shape) if a not in compressed_axes), 1)"
+PTR_DECREASES = "np.any(self.indptr[1:] < self.indptr[:-1])"
 
 FILES = {
     "Compressed": {
@@ -33,15 +47,24 @@ FILES = {
                  consts={"isinstance(sh, Integral)": ("True", "Prop")},
                  params=[("sh", INT)], ret="bool",
                  note="one extent of `shape` inside all(...): a non-negative integer"),
+            dict(name="gcxsCtorChecksHead", func="GCXS.__init__",
+                 select=("between", "if self.data.ndim != 1", "n_uncompressed = "),
+                 bind={"self.data.ndim": "dataNdim", "len(shape)": "ndim", "len(self.data)": "ndata", "len(self.indices)": "nind"},
+                 consts={ALL_SHAPE: ("(shapeOk = true)", "Prop")},
+                 params=[("dataNdim", INT), ("shapeOk", BOOL), ("ndim", INT), ("ndata", INT), ("nind", INT)], ret="unit",
+                 note="the checks that run before the products over compressed_axes are formed"),
             dict(name="gcxsCtorChecks", func="GCXS.__init__",
                  select=("between", "if self.data.ndim != 1", "self.shape = shape"),
-                 bind={"self.data.ndim": "dataNdim", "len(shape)": "ndim", "len(self.data)": "ndata",
+                 bind={"self.data.ndim": "dataNdim", "len(shape)": "ndim", "shape[0]": "sh0", "len(self.data)": "ndata",
                        "len(self.indices)": "nind", "len(self.indptr)": "nptr",
-                       "self.indptr[0]": "p0", "self.indptr[-1]": "plast"},
-                 consts={ALL_SHAPE: ("(shapeOk = true)", "Prop"), ROWS: ("rows", INT)},
-                 params=[("dataNdim", INT), ("shapeOk", BOOL), ("ndim", INT), ("ndata", INT), ("nind", INT),
-                         ("nptr", INT), ("rows", INT), ("p0", INT), ("plast", INT)], ret="unit",
-                 note="consistency checks of (data, indices, indptr) against shape and compressed_axes"),
+                       "self.indptr[0]": "p0", "self.indptr[-1]": "plast",
+                       "np.ndim(self.indices)": "indicesNdim", "np.min(self.indices)": "imin", "np.max(self.indices)": "imax"},
+                 consts={ALL_SHAPE: ("(shapeOk = true)", "Prop"), ROWS: ("rows", INT), COLS: ("cols", INT),
+                         PTR_DECREASES: ("(ptrDecreases = true)", "Prop")},
+                 params=[("dataNdim", INT), ("shapeOk", BOOL), ("ndim", INT), ("sh0", INT), ("ndata", INT), ("nind", INT),
+                         ("nptr", INT), ("rows", INT), ("cols", INT), ("p0", INT), ("plast", INT), ("ptrDecreases", BOOL),
+                         ("indicesNdim", INT), ("imin", INT), ("imax", INT)], ret="unit",
+                 note="consistency checks of (data, indices, indptr) against shape and compressed_axes: lengths, end pointers, contents"),
         ],
     },
     "CooCore": {
